@@ -1,0 +1,118 @@
+// Copyright 2020-2025 Buf Technologies, Inc.
+//
+// Licensed under the Apache License, Version 2.0 (the "License");
+// you may not use this file except in compliance with the License.
+// You may obtain a copy of the License at
+//
+//      http://www.apache.org/licenses/LICENSE-2.0
+//
+// Unless required by applicable law or agreed to in writing, software
+// distributed under the License is distributed on an "AS IS" BASIS,
+// WITHOUT WARRANTIES OR CONDITIONS OF ANY KIND, either express or implied.
+// See the License for the specific language governing permissions and
+// limitations under the License.
+
+//go:build verif
+
+// Package verifhook provides seams used by external verification harnesses.
+//
+// With the "verif" build tag the functions forward to a settable Handler; without a
+// Handler they do nothing.
+package verifhook
+
+import (
+	"errors"
+	"sync/atomic"
+)
+
+// Handler receives the hook calls.
+type Handler interface {
+	Point(label string) error
+	Spawn() int
+	Begin(token int)
+	End(token int)
+	Acquire(capacity int)
+	Wait()
+}
+
+// ShortWriteError is an injected write error that lets the first N bytes through.
+type ShortWriteError struct {
+	N   int
+	Err error
+}
+
+func (e *ShortWriteError) Error() string { return e.Err.Error() }
+func (e *ShortWriteError) Unwrap() error { return e.Err }
+
+type holder struct{ h Handler }
+
+var current atomic.Pointer[holder]
+
+// SetHandler installs h (nil removes it).
+func SetHandler(h Handler) {
+	if h == nil {
+		current.Store(nil)
+		return
+	}
+	current.Store(&holder{h: h})
+}
+
+func get() Handler {
+	if p := current.Load(); p != nil {
+		return p.h
+	}
+	return nil
+}
+
+// Point marks a step at which a harness may schedule, inject a failure or stop the caller.
+func Point(label string) error {
+	if h := get(); h != nil {
+		return h.Point(label)
+	}
+	return nil
+}
+
+// ShortWrite reports how many bytes of a failed write of size n should still be written.
+func ShortWrite(err error, n int) int {
+	var shortWriteError *ShortWriteError
+	if errors.As(err, &shortWriteError) && shortWriteError.N > 0 && shortWriteError.N < n {
+		return shortWriteError.N
+	}
+	return 0
+}
+
+// Spawn announces that the caller is about to start a goroutine and returns its token.
+func Spawn() int {
+	if h := get(); h != nil {
+		return h.Spawn()
+	}
+	return 0
+}
+
+// Begin is called first thing in a goroutine announced with Spawn.
+func Begin(token int) {
+	if h := get(); h != nil {
+		h.Begin(token)
+	}
+}
+
+// End is called when the goroutine announced with Spawn has finished its work.
+func End(token int) {
+	if h := get(); h != nil {
+		h.End(token)
+	}
+}
+
+// Acquire is called before the caller may block on a semaphore with the given capacity.
+func Acquire(capacity int) {
+	if h := get(); h != nil {
+		h.Acquire(capacity)
+	}
+}
+
+// Wait is called before the caller blocks until all spawned goroutines have ended.
+func Wait() {
+	if h := get(); h != nil {
+		h.Wait()
+	}
+}
